@@ -62,6 +62,13 @@ def run_case(case: dict) -> Result:
         c10.prime(root)
         classes.add('primed')
     for op in case['ops']:
+        if op.get('f') == 'claim' and case.get('pinned'):
+            # manual attribution (documented) before the edit - only in the committed trigger of the open finding about unowned comments
+            try:
+                OPS.resolve(root, op).run()
+            except Exception:  # noqa: BLE001
+                pass
+            continue
         if op.get('f') not in ('opt', 'req', 'val', 'list', 'view', 'map') or op.get('op') == 'reverse':
             continue  # reverse() re-orders children: not an add / remove / replace
         try:
@@ -168,6 +175,12 @@ def run_case(case: dict) -> Result:
             if res.violations:
                 break
             bad = _window(S0, ids1, child_before_tok)
+            gone_unowned = [t for t in S0 if id(t) not in ids1 and id(t) not in child_before_tok and type(t).__name__ == 'BlockComment' and not t.claimed]
+            if bad is not None and gone_unowned:
+                bad = gone_unowned[0]
+                res.bad('unowned-comment-removed-with-neighbour', f'{what}: the unowned comment {texts0[id(bad)]!r} next to the removed child was deleted with it; '
+                        f'before {"".join(texts0[id(t)] for t in S0)!r} after {"".join(t.raw_text for t in S1)!r}')
+                break
             if bad is not None:
                 res.bad(f'disappeared:{key}', f'{what}: token {type(bad).__name__} {texts0[id(bad)]!r} disappeared from {type(P).__name__} although it is neither '
                         f'part of the removed child nor a separator next to it; before {"".join(texts0[id(t)] for t in S0)!r} after {"".join(t.raw_text for t in S1)!r}')
